@@ -34,6 +34,7 @@ from .. import minidb as M
 from .. import slot
 from ..kkey import K, CmpFault
 from ..report import Reporter
+from .c04 import lone_inline
 
 LEVEL = 'exploration'
 RULE = ('for every reachable shape (BFS fixed point; each state re-reached by replaying its shortest '
@@ -61,7 +62,7 @@ def bounds(tier):
 def required_guards(tier):
     return ['audits', 'audited_objects', 'op:mutate', 'op:read', 'op:iter', 'op:setop', 'op:merge',
             'op:pickle', 'op:setstate', 'op:fail', 'faults_injected', 'height>=3', 'separator_refs',
-            'stale_separator_alive', 'jar_sweeps', 'all_dead_after_drop']
+            'jar_sweeps', 'all_dead_after_drop']
 
 
 # --------------------------------------------------------------------------
@@ -166,18 +167,23 @@ class Dom:
 # --------------------------------------------------------------------------
 # census
 
-def census(roots, tree_type, leaf_type, ismap, cached=()):
+def census(roots, tree_types, leaf_types):
     """-> (occ {id: slots owning a reference}, objs {id: object}, stats)"""
     occ = collections.Counter()
     objs = {}
     stats = collections.Counter()
 
     def note(o, n=1):
-        if isinstance(o, (TK, TV)) or type(o) is tree_type or type(o) is leaf_type:
+        if isinstance(o, (TK, TV)) or type(o) in tree_types or type(o) in leaf_types:
             occ[id(o)] += n
             objs[id(o)] = o
 
+    visited = set()
+
     def leaf(b):
+        if id(b) in visited:        # shared between two roots (shallow copies): contents once
+            return
+        visited.add(id(b))
         st = b.__getstate__()
         for x in st[0]:
             note(x)
@@ -186,6 +192,9 @@ def census(roots, tree_type, leaf_type, ismap, cached=()):
             stats['next_links'] += 1
 
     def tree(n):
+        if id(n) in visited:
+            return
+        visited.add(id(n))
         st = n.__getstate__()
         if st is None:
             return
@@ -201,40 +210,49 @@ def census(roots, tree_type, leaf_type, ismap, cached=()):
                 stats['separator_refs'] += 1
             else:
                 note(x)
-                if type(x) is tree_type:
+                if type(x) in tree_types:
                     tree(x)
                 else:
                     leaf(x)
         note(first)
 
-    for r in roots:
-        if type(r) is tree_type:
-            tree(r)
-        elif type(r) is leaf_type:
-            leaf(r)
-        else:
-            raise TypeError(r)
+    try:
+        for r in roots:
+            if type(r) in tree_types:
+                tree(r)
+            elif type(r) in leaf_types:
+                leaf(r)
+            else:
+                raise TypeError(r)
+    finally:
+        # the recursive closures form a reference cycle with their cells; break it so that
+        # nothing outlives this call (the garbage collector is off during a job)
+        tree = leaf = note = None
     for r in roots:         # roots are held by the harness, never audited
         occ.pop(id(r), None)
         objs.pop(id(r), None)
     return occ, objs, stats
 
 
-def audit(roots, ctx, extra=None, cache_refs=None):
-    """Returns a list of problem strings.  `extra`: {id: harness-owned references}."""
-    occ, objs, stats = census(roots, ctx.tree_type, ctx.leaf_type, ctx.ismap)
+def audit(roots, ctx, extra=None, nodes=True):
+    """Returns a list of problem strings.  `extra`: {id: harness-owned references}.
+    nodes=False: only tracked keys / values are audited (inside a data manager the pickle cache
+    and the connection own references to nodes that are none of the container's business)."""
+    occ, objs, stats = census(roots, ctx.tree_types, ctx.leaf_types)
     probs = []
     ids = list(objs)
     n_audited = 0
     for i in ids:
+        if not nodes and not isinstance(objs[i], (TK, TV)):
+            continue
         want = occ[i] + (extra.get(i, 0) if extra else 0)
-        if cache_refs:
-            want += cache_refs.get(i, 0)
         have = sys.getrefcount(objs[i]) - 2      # the objs dict + the call argument
         n_audited += 1
         if have != want:
             probs.append('%s: refcount %d, %d slot(s) own it' % (describe(objs[i]), have, want))
     known = set(ids)
+    objs.clear()
+    occ.clear()
     del objs
     for o in live():
         if id(o) not in known and not (extra and id(o) in extra):
@@ -261,6 +279,8 @@ class Ctx16:
         self.istree = F.is_tree(kind)
         self.tree_type = F.cls(fam, F.tree_kind_of(kind), 'c')
         self.leaf_type = F.cls(fam, F.leaf_kind_of(kind), 'c')
+        self.tree_types = (F.cls(fam, 'BTree', 'c'), F.cls(fam, 'TreeSet', 'c'))
+        self.leaf_types = (F.cls(fam, 'Bucket', 'c'), F.cls(fam, 'Set', 'c'))
         self.dom = Dom(fam, n)
         self.mod = F.module(fam)
         if sizes:
@@ -755,9 +775,16 @@ def job(fam, kind, sizes, n, thin, faults, shard=(0, 1)):
         if si == 0 and shard[0] == 0:
             cat = cat + extras      # state-independent operations: once per job
         stale = ctx.istree and C.shape_stats(c)['stale_sep'] if ctx.istree else False
+        reset()
+        lone = lone_inline(rebuild(ctx, hist), ctx.istree)
         for name, tag, fn in cat:
             if rep.full:
                 break
+            if lone and tag == 'pickle' and name != 'copy':
+                # finding F12 (C06): a plain pickle of such a tree duplicates the embedded leaf;
+                # the copy is not a well-formed tree, so its ledger is not judged
+                guards['skipped_pickle_of_F12_shapes'] += 1
+                continue
             slot.set(('C16', fam, kind, sizes, hist, name, None))
             sig = dict(fam=fam, kind=kind, site=name.split('(')[0].split(' ')[0].split('@')[0], tag=tag)
             case = dict(base, history=[list(o) for o in hist], op=name, fault=None)
@@ -849,7 +876,7 @@ def jar_job(fam, kind, sizes, n):
             continue
         # 2. reload by use, change something, audit with the cache's own references known
         out = outcome(lambda: mfn(t))
-        probs, stats = audit([t], ctx, cache_refs=_cache_refs(conn, t))
+        probs, stats = audit([t], ctx, nodes=False)
         guards['audits'] += 1
         for k, v in stats.items():
             guards[k] += v
@@ -872,6 +899,7 @@ def jar_job(fam, kind, sizes, n):
         conn.cache = None
         conn.registered = []
         del conn
+        gc.collect()        # connection <-> pickle cache <-> objects form cycles
         if live():
             rep.add(dict(sig, cls='alive-after-drop'), case,
                     'after dropping the connection these objects are still alive: %r' % (alive_desc(),))
@@ -882,19 +910,6 @@ def jar_job(fam, kind, sizes, n):
     gc.enable()
     return dict(evaluations=evaluations, distinct=evaluations, exhaustive=not rep.full,
                 guards=dict(guards), outcomes={}, violations=rep.all(), sample=sample)
-
-
-def _cache_refs(conn, root):
-    """References the data manager itself holds on nodes: the pickle cache owns one reference to
-    every non-ghost object it contains; the connection's `registered` list one more."""
-    refs = collections.Counter()
-    for oid, o in conn.cache.items():
-        if o is not root and o._p_state != -1:
-            refs[id(o)] += 1
-    for o in conn.registered:
-        if o is not root:
-            refs[id(o)] += 1
-    return refs
 
 
 # --------------------------------------------------------------------------
